@@ -45,23 +45,23 @@ theorem gen_bhp_parse_empty (grow : Nat → Nat → Nat) (fuel : Nat) (lcs : Sli
   have hs : Slice.slice blk.Literals 0 (0 : Int) = Res.ok { arr := blk.Literals.arr, len := 0 } := by
     unfold Slice.slice
     simp [Slice.cap]
-  unfold blockNB at h
+  -- the two cases of the hand-written `blockNB`, as arithmetic facts
+  have h' : ((s.hashDictionary.ParserBuffer.Data.len : Int) - s.hashDictionary.ParserBuffer.W > s.BHPConfig.BlockSize ∧
+        s.BHPConfig.BlockSize = 0) ∨
+      (¬ (s.hashDictionary.ParserBuffer.Data.len : Int) - s.hashDictionary.ParserBuffer.W > s.BHPConfig.BlockSize ∧
+        (s.hashDictionary.ParserBuffer.Data.len : Int) - s.hashDictionary.ParserBuffer.W = 0) := by
+    unfold blockNB at h
+    simp only [Int.ofNat_eq_natCast] at h
+    split at h
+    · exact Or.inl ⟨‹_›, h⟩
+    · exact Or.inr ⟨‹_›, h⟩
   unfold backwardHashParser_Parse
-  -- shape-independent in the spelling of the clamp (`n > BlockSize` or `n >= BlockSize`): both facts are given to simp
-  by_cases hgt : (Int.ofNat s.hashDictionary.ParserBuffer.Data.len) - s.hashDictionary.ParserBuffer.W > s.BHPConfig.BlockSize
-  · have hB : s.BHPConfig.BlockSize = 0 := by simpa only [hgt, if_true] using h
-    have hge : (Int.ofNat s.hashDictionary.ParserBuffer.Data.len) - s.hashDictionary.ParserBuffer.W ≥ s.BHPConfig.BlockSize := by
-      omega
-    simp only [hgt, hge, if_true, if_false, hs, bind_ok, resetBlk]
-    simp only [hB, if_true]
-  · have hL : (Int.ofNat s.hashDictionary.ParserBuffer.Data.len) - s.hashDictionary.ParserBuffer.W = 0 := by
-      simpa only [hgt, if_false] using h
-    by_cases hge : (Int.ofNat s.hashDictionary.ParserBuffer.Data.len) - s.hashDictionary.ParserBuffer.W ≥ s.BHPConfig.BlockSize
-    · have hB : s.BHPConfig.BlockSize = 0 := by omega
-      simp only [hgt, hge, if_true, if_false, hs, bind_ok, resetBlk]
-      simp only [hB, hL, if_true]
-    · simp only [hgt, hge, if_true, if_false, hs, bind_ok, resetBlk]
-      simp only [hL, if_true]
+  simp only [if_false]
+  -- `n = min(len(s.Data) - s.W, s.BlockSize)` in whatever form the text computes it: its value is 0
+  bhp_val (0 : Int)
+  rw [hs, bind_ok]
+  bhp_ifc
+  rfl
 
 
 /-! ## the whole `Parse` -/
@@ -90,6 +90,23 @@ structure ParseOKB (s : Gen.backwardHashParser) : Prop where
       { ParserBuffer := { s.hashDictionary.ParserBuffer with W := w },
         hash := { s.hashDictionary.hash with table := t } },
     BHPConfig := s.BHPConfig }
+
+/-- the two bounds handed to the greedy loop (`inputEnd`, `len(_p)`) in any spelling -/
+theorem loop1_argsB (grow : Nat → Nat → Nat) (lcs : Slice → Slice → Int) (ie : Int) (n : Nat) {ie' : Int} {n' : Nat}
+    {A : List UInt8} {p : Slice} {mm : Int} {fuel : Nat} {i : Int} {s : Gen.backwardHashParser} {blk : Block'} {li : Int}
+    (h1 : ie' = ie) (h2 : n' = n) :
+    backwardHashParser_Parse_loop_1 grow lcs ie' { arr := A, len := n' } p mm fuel i s blk li =
+      backwardHashParser_Parse_loop_1 grow lcs ie { arr := A, len := n } p mm fuel i s blk li := by
+  subst h1 h2; rfl
+
+/-- the arguments of `processSegment` in any spelling -/
+theorem pseg_argsB (fuel : Nat) (f : Gen.hashDictionary) (a b : Int) {a' b' : Int} (h1 : a' = a) (h2 : b' = b) :
+    hashDictionary_processSegment fuel f a' b' = hashDictionary_processSegment fuel f a b := by subst h1 h2; rfl
+
+/-- the result tuple of `Parse` with the returned `n` in any spelling -/
+theorem res4B {α β γ δ : Type} {a a' : α} {b b' : β} {c c' : γ} {d d' : δ}
+    (h1 : a = a') (h2 : b = b') (h3 : c = c') (h4 : d = d') : Res.ok (a, b, c, d) = Res.ok (a', b', c', d') := by
+  subst h1 h2 h3 h4; rfl
 
 set_option maxHeartbeats 1000000 in
 /-- **bhp.go `Parse`, translated, is `ProbeW.parseW` for kind `.BHP`** (same panic, same results), for every `lcs`
@@ -125,14 +142,6 @@ theorem gen_bhp_parse (grow : Nat → Nat → Nat) (fuel : Nat) (lcs : Slice →
     rw [hbN]
     show (if (s.hashDictionary.ParserBuffer.Data.len : Int) - _ > _ then _ else (s.hashDictionary.ParserBuffer.Data.len : Int) - _) = _
     split <;> omega
-  -- the same clamp spelled `n >= s.BlockSize` (a harmless rewrite of the Go text)
-  have hnG' : (if (Int.ofNat s.hashDictionary.ParserBuffer.Data.len) - s.hashDictionary.ParserBuffer.W ≥ s.BHPConfig.BlockSize
-      then s.BHPConfig.BlockSize
-      else (Int.ofNat s.hashDictionary.ParserBuffer.Data.len) - s.hashDictionary.ParserBuffer.W) =
-      (((ofBHPs s).blockN : Nat) : Int) := by
-    rw [hbN]
-    show (if (s.hashDictionary.ParserBuffer.Data.len : Int) - _ ≥ _ then _ else (s.hashDictionary.ParserBuffer.Data.len : Int) - _) = _
-    split <;> omega
   by_cases hn : (ofBHPs s).blockN = 0
   · have hg : blockNB s = 0 := by unfold blockNB; rw [hnG, hn]; rfl
     rw [gen_bhp_parse_empty grow fuel lcs s blk flags hg]
@@ -161,8 +170,13 @@ theorem gen_bhp_parse (grow : Nat → Nat → Nat) (fuel : Nat) (lcs : Slice →
   generalize hG : backwardHashParser_Parse grow fuel lcs s blk flags = G
   unfold backwardHashParser_Parse at hG
   simp only [if_false] at hG
-  simp only [hnG, hnG'] at hG
-  rw [hs0, bind_ok, if_neg (by omega)] at hG
+  -- `n = min(len(s.Data) - s.W, s.BlockSize)` in whatever form the text computes it
+  bhp_val (((ofBHPs s).blockN : Nat) : Int) at hG
+  rw [hs0, bind_ok] at hG
+  bhp_ifc at hG
+  -- the arguments of `processSegment` in any spelling
+  rw [pseg_argsB fuel s.hashDictionary ((s.hashDictionary.ParserBuffer.W - s.hashDictionary.hash.inputLen) + 1)
+    s.hashDictionary.ParserBuffer.W (by bhp_cond) (by bhp_cond)] at hG
   cases hp1 : ProbeW.processSegment1W (ofHash s.hashDictionary.hash) s.hashDictionary.ParserBuffer.Data.data
         (s.hashDictionary.ParserBuffer.Data.arr.drop s.hashDictionary.ParserBuffer.Data.len)
         ((s.hashDictionary.ParserBuffer.W - s.hashDictionary.hash.inputLen) + 1) s.hashDictionary.ParserBuffer.W with
@@ -201,7 +215,7 @@ theorem gen_bhp_parse (grow : Nat → Nat → Nat) (fuel : Nat) (lcs : Slice →
     rw [hpm, hbeh, hws, hmmM, hkind, hpl]
     simp only [ofHashT_inputLen]
     -- p := s.Data[:s.W+n]
-    rw [hWn, slice_okI s.hashDictionary.ParserBuffer.Data 0 ((Wn : Int) + (nN : Int)) 0 (Wn + nN) rfl (by omega)
+    rw [hWn, slice_okB s.hashDictionary.ParserBuffer.Data 0 (Wn + nN) (by bhp_cond) (by bhp_cond)
       (Nat.zero_le _) (by omega), bind_ok] at hG
     simp only [List.drop_zero, Nat.sub_zero] at hG
     generalize hA : s.hashDictionary.ParserBuffer.Data.arr = A at hG hD' hpl ⊢
@@ -210,6 +224,8 @@ theorem gen_bhp_parse (grow : Nat → Nat → Nat) (fuel : Nat) (lcs : Slice →
     have hiln' : s.hashDictionary.hash.inputLen.toNat = iln := by omega
     rw [hiln'] at *
     rw [hiln] at hG
+    -- `minMatchLen = min(3, s.inputLen)` in whatever form the text computes it
+    bhp_val ((Min.min 3 iln : Nat) : Int) at hG
     have hc0 : TCtx s.hashDictionary.hash.mask s.hashDictionary.hash.shift s.hashDictionary.hash.inputLen
         { arr := A, len := 0 } → True := fun _ => trivial
     -- the margin reslice `_p := s.Data[:inputEnd+7]`
@@ -222,17 +238,13 @@ theorem gen_bhp_parse (grow : Nat → Nat → Nat) (fuel : Nat) (lcs : Slice →
     by_cases hmar : ((Wn + nN : Nat) : Int) - (iln : Int) + 1 + 7 < 0 ∨
         (A.length : Int) < ((Wn + nN : Nat) : Int) - (iln : Int) + 1 + 7
     · rw [if_pos hmar]
-      rw [slice_panic _ _ _ (by
-        rw [hA]; show _ ∨ ((Wn + nN : Nat) : Int) - _ + 1 + 7 < 0 ∨ (A.length : Int) < ((Wn + nN : Nat) : Int) - _ + 1 + 7
-        omega)] at hG
+      rw [slice_panic _ _ _ (by rw [hA]; simp only [Int.ofNat_eq_natCast]; omega)] at hG
       exact hG.symm
     rw [if_neg hmar, Option.bind_some]
-    have hcapE : ((Int.ofNat (Wn + nN) - (iln : Int) + 1 + 7).toNat) ≤ s.hashDictionary.ParserBuffer.Data.arr.length := by
-      rw [hA]; show (((Wn + nN : Nat) : Int) - _ + 1 + 7).toNat ≤ _; omega
-    rw [slice_okI s.hashDictionary.ParserBuffer.Data 0 (Int.ofNat (Wn + nN) - (iln : Int) + 1 + 7) 0
-      ((Int.ofNat (Wn + nN) - (iln : Int) + 1 + 7).toNat) rfl
-      (by show ((Wn + nN : Nat) : Int) - _ + 1 + 7 = (((((Wn + nN : Nat) : Int) - _ + 1 + 7).toNat : Nat) : Int); omega)
-      (Nat.zero_le _) hcapE, bind_ok] at hG
+    have hcapE : ((((Wn + nN : Nat) : Int) - (iln : Int) + 1 + 7).toNat) ≤ s.hashDictionary.ParserBuffer.Data.arr.length := by
+      rw [hA]; omega
+    rw [slice_okB s.hashDictionary.ParserBuffer.Data 0 ((((Wn + nN : Nat) : Int) - (iln : Int) + 1 + 7).toNat)
+      (by bhp_cond) (by bhp_cond) (Nat.zero_le _) hcapE, bind_ok] at hG
     simp only [List.drop_zero, Nat.sub_zero] at hG
     rw [hA] at hG
     -- the greedy loop
@@ -240,9 +252,9 @@ theorem gen_bhp_parse (grow : Nat → Nat → Nat) (fuel : Nat) (lcs : Slice →
         ProbeW.greedyLoopW (ProbeW.hpProbeW s.BHPConfig.WindowSize.toNat (Min.min 3 iln) (Wn + nN + 1 - iln) true
             (A.drop (Wn + nN))) (A.take (Wn + nN)) (Wn + nN + 1 - iln)
           { dict := ofHashT s.hashDictionary.hash t0, i := Wn, litIndex := Wn, seqs := [], lits := [] } = some st' ∧
-        backwardHashParser_Parse_loop_1 grow lcs (Int.ofNat (Wn + nN) - (iln : Int) + 1)
-          { arr := A, len := (Int.ofNat (Wn + nN) - (iln : Int) + 1 + 7).toNat } { arr := A, len := Wn + nN }
-          (if (iln : Int) < 3 then (iln : Int) else 3) fuel (Wn : Int)
+        backwardHashParser_Parse_loop_1 grow lcs (((Wn + nN : Nat) : Int) - (iln : Int) + 1)
+          { arr := A, len := (((Wn + nN : Nat) : Int) - (iln : Int) + 1 + 7).toNat } { arr := A, len := Wn + nN }
+          ((Min.min 3 iln : Nat) : Int) fuel (Wn : Int)
           { hashDictionary := setD s.hashDictionary t0, BHPConfig := s.BHPConfig }
           { Sequences := [], Literals := { arr := blk.Literals.arr, len := 0 } } (Wn : Int) =
           Res.ok ((st'.i : Int), setTB { hashDictionary := setD s.hashDictionary t0, BHPConfig := s.BHPConfig } t', blk',
@@ -250,13 +262,12 @@ theorem gen_bhp_parse (grow : Nat → Nat → Nat) (fuel : Nat) (lcs : Slice →
         TOK s.hashDictionary.hash.shift t' ∧ st'.dict = ofHashT s.hashDictionary.hash t' ∧
         blk'.Sequences = st'.seqs.map seqRep ∧ blk'.Literals.data = st'.lits ∧ SWF blk'.Literals ∧
         Wn ≤ st'.litIndex ∧ st'.litIndex ≤ Wn + nN := by
-      have hmmI : (if (iln : Int) < 3 then (iln : Int) else 3) = ((Min.min 3 iln : Nat) : Int) := by
-        split <;> omega
-      by_cases h0 : (Wn : Int) < Int.ofNat (Wn + nN) - (iln : Int) + 1
+      have hmmI : ((Min.min 3 iln : Nat) : Int) = ((Min.min 3 iln : Nat) : Int) := rfl
+      by_cases h0 : (Wn : Int) < ((Wn + nN : Nat) : Int) - (iln : Int) + 1
       · have h0' : (Wn : Int) < ((Wn + nN : Nat) : Int) - (iln : Int) + 1 := h0
-        have hEI : Int.ofNat (Wn + nN) - (iln : Int) + 1 = ((Wn + nN + 1 - iln : Nat) : Int) := by
-          show ((Wn + nN : Nat) : Int) - _ + 1 = _; omega
-        have hE7 : (Int.ofNat (Wn + nN) - (iln : Int) + 1 + 7).toNat = Wn + nN + 1 - iln + 7 := by
+        have hEI : ((Wn + nN : Nat) : Int) - (iln : Int) + 1 = ((Wn + nN + 1 - iln : Nat) : Int) := by
+          omega
+        have hE7 : (((Wn + nN : Nat) : Int) - (iln : Int) + 1 + 7).toNat = Wn + nN + 1 - iln + 7 := by
           rw [hEI]; omega
         rw [hE7]
         have hmar' : ¬ ((A.length : Int) < ((Wn + nN : Nat) : Int) - (iln : Int) + 1 + 7) := fun hc => hmar (Or.inr hc)
@@ -274,9 +285,12 @@ theorem gen_bhp_parse (grow : Nat → Nat → Nat) (fuel : Nat) (lcs : Slice →
         refine ⟨_, t0, { Sequences := [], Literals := { arr := blk.Literals.arr, len := 0 } },
           ProbeW.greedyLoopW_done _ _ _ _ (by show ¬ Wn < Wn + nN + 1 - iln; omega), ?_, ht0, rfl, rfl,
           rfl, Nat.zero_le _, Nat.le_refl _, by show Wn ≤ Wn + nN; omega⟩
-        rw [backwardHashParser_Parse_loop_1, if_neg h0]
+        rw [backwardHashParser_Parse_loop_1]
+        bhp_ifc
     obtain ⟨st', t', blk', hgl, hl1, ht', hdict', hseq', hlit', hswf', hli1, hli2⟩ := hloop
-    rw [hl1, bind_ok] at hG
+    -- the bounds handed to the loop, in whatever spelling
+    rw [loop1_argsB grow lcs (((Wn + nN : Nat) : Int) - (iln : Int) + 1)
+      ((((Wn + nN : Nat) : Int) - (iln : Int) + 1 + 7).toNat) (by bhp_cond) (by bhp_cond), hl1, bind_ok] at hG
     dsimp only at hG
     unfold ProbeW.runGreedyW
     simp only [Option.bind_eq_bind, Option.pure_def]
@@ -292,23 +306,25 @@ theorem gen_bhp_parse (grow : Nat → Nat → Nat) (fuel : Nat) (lcs : Slice →
     by_cases hfin : flags.toNat % 2 = 1 ∧ st'.seqs ≠ []
     · rw [if_pos hfin]
       have hne : st'.seqs.length ≠ 0 := fun hc => hfin.2 (List.eq_nil_of_length_eq_zero hc)
-      rw [if_pos ⟨(iand_one flags hfl).mpr hfin.1, by show (blk'.Sequences.length : Int) > 0; omega⟩, bind_ok] at hG
+      have hfl1 : iand flags 1 ≠ 0 := (iand_one flags hfl).mpr hfin.1
+      bhp_ifc at hG
+      rw [bind_ok] at hG
       dsimp only at hG
       refine ⟨withWTB s (st'.litIndex : Int) t', blk', hG.symm.trans ?_, ?_, rfl, Or.inl rfl, hseq', hlit', hswf', hPt _ hli2⟩
       · rw [hWn]
-        have : ((st'.litIndex : Nat) : Int) - (Wn : Int) = ((st'.litIndex - Wn : Nat) : Int) := by omega
-        rw [this]; rfl
+        exact res4B rfl rfl (by bhp_cond) rfl
       · rw [hdict']; rfl
     · rw [if_neg hfin]
-      have hcond : ¬ (iand flags 1 ≠ 0 ∧ Int.ofNat blk'.Sequences.length > 0) := by
-        intro ⟨h1, h2⟩
-        apply hfin
-        refine ⟨(iand_one flags hfl).mp h1, ?_⟩
-        intro hc
-        have h2' : (blk'.Sequences.length : Int) > 0 := h2
-        rw [hslen, hc] at h2'
-        exact absurd h2' (by decide)
-      rw [if_neg hcond, slice_okI _ _ (Int.ofNat (Wn + nN)) st'.litIndex (Wn + nN) rfl rfl hli2
+      have hcond : iand flags 1 = 0 ∨ blk'.Sequences.length = 0 := by
+        by_cases h1 : iand flags 1 = 0
+        · exact Or.inl h1
+        · refine Or.inr ?_
+          rw [hslen]
+          cases hsq : st'.seqs with
+          | nil => rfl
+          | cons a l => exact absurd ⟨(iand_one flags hfl).mp h1, by rw [hsq]; exact List.cons_ne_nil _ _⟩ hfin
+      bhp_ifc at hG
+      rw [slice_okB _ st'.litIndex (Wn + nN) (by bhp_cond) (by bhp_cond) hli2
         (by show Wn + nN ≤ A.length; omega), bind_ok, bind_ok] at hG
       dsimp only at hG
       refine ⟨withWTB s ((Wn + nN : Nat) : Int) t',
@@ -317,9 +333,7 @@ theorem gen_bhp_parse (grow : Nat → Nat → Nat) (fuel : Nat) (lcs : Slice →
         hG.symm.trans ?_, ?_, rfl, Or.inl rfl, hseq', ?_,
         swf_append grow _ hswf' _, hPt _ (Nat.le_refl _)⟩
       · rw [hWn, hpl]
-        have : Int.ofNat (Wn + nN) - (Wn : Int) = ((Wn + nN - Wn : Nat) : Int) := by
-          show ((Wn + nN : Nat) : Int) - _ = _; omega
-        rw [this]; rfl
+        exact res4B rfl rfl (by bhp_cond) rfl
       · rw [hdict', hpl]; rfl
       · rw [(append_spec grow blk'.Literals hswf' _).1, hlit']
         show _ ++ (A.drop st'.litIndex).take (Wn + nN - st'.litIndex) = _ ++ (A.take (Wn + nN)).drop st'.litIndex
